@@ -37,6 +37,61 @@ def build_doc(r, pols, pad_to=None):
     return bytes(out), pos
 
 
+LEX = ['permit', 'forbid', 'when', 'unless', 'principal', 'action', 'resource', 'context', 'true', 'false', 'if', 'then', 'else', 'in', 'like', 'has', 'is',
+       '__cedar', '_a1', 'A', 'z9_', '0', '7', '123456789012345678901234567890', '==', '!=', '<=', '>=', '<', '>', '&&', '||', '!', '::', ':', '.', ',', ';',
+       '(', ')', '{', '}', '[', ']', '+', '-', '*', '@', '/', '=', '|', '&', '%', '#', '~', '?', '"a"', '""', '"\\n\\t\\\\\\0\\\'\\"\\*"', '"\\x41\\x7f"', '"\\u{e9}"',
+       '"\\u{1F600}"', '"\\u{0000061}"', '"\\u{}"', '"\\x4"', '"\\q"', '"\\u{110000}"', '"é日\U0001f600"', '"unterminated', '"a\nb"', '// c\n', '//\n', '/**/',
+       '/* a\n b */', '/* é */', '/* unterminated', '/*/', 'é', '日', '\U0001f600', ' ', '\n', '\r\n', '\t', '\r']
+BADBYTES = [b'\x00', b'\xff', b'\xc0\x80', b'\xe6\x97', b'\xf0\x9f\x98', b'\x80', b'\xed\xa0\x80', b'\xf4\x90\x80\x80', b'\xe6']
+
+
+BADLEX = [t for t in LEX if t in ('"\\u{}"', '"\\x4"', '"\\q"', '"unterminated', '"a\nb"', '/* unterminated', '/*/')]
+GOODLEX = [t for t in LEX if t not in BADLEX]
+
+
+def lex_doc(r, size, bad):
+    out = bytearray()
+    while len(out) < size:
+        k = r.random()
+        if k < 0.03:
+            out += (r.choice('abcxyz_') * r.randrange(1, 1500)).encode()          # a very long identifier
+        elif k < 0.05:
+            out += ('"' + r.choice(['é', 'a', '日', '\\n', '\U0001f600']) * r.randrange(1, 700) + '"').encode()
+        elif k < 0.07:
+            out += ('/* ' + r.choice(['é', 'a', '*', '日']) * r.randrange(1, 900) + ' */').encode()
+        elif bad and k < 0.073:
+            out += r.choice(BADBYTES) if r.random() < 0.5 else r.choice(BADLEX).encode()
+        else:
+            out += r.choice(GOODLEX).encode()
+        if r.random() < 0.6:
+            out += r.choice([b' ', b' ', b'\n', b'\t', b''])
+    return bytes(out)
+
+
+def token_cases(ctx, docs):
+    r = ctx.rng
+    quick = ctx.tier == 'quick'
+    cases = []
+    n = 0
+    srcs = list(docs)
+    for i in range(30 if quick else 500):
+        size = r.choice([5, 40, 300, 1000, 1024, 1030, 2047, 2100, 3080])
+        srcs.append(lex_doc(r, size, bad=(i % 4 == 3)))
+    for doc in srcs:
+        L = len(doc)
+        scheds = [[], [(1, 0)] * (L + 2), [(r.choice([0, 1, 2, 3, 5, 7]), 0) for _ in range(60)], [(r.choice([1020, 1021, 1022, 1023, 1024, 4000, 0]), 0) for _ in range(8)],
+                  [(r.randrange(0, 40), 0) for _ in range(30)]]
+        for sc in (scheds if not quick else [scheds[0]] + r.sample(scheds[1:], 2)):
+            n += 1
+            cases.append('(case k%d tokens x%s (sched %s) (ewd %d))' % (n, doc.hex(), ' '.join('(%d %d)' % s for s in sc), r.randrange(2)))
+        # reader failures
+        for _ in range(2 if quick else 6):
+            n += 1
+            sc = [(r.choice([1, 3, 100, 1024]), 0) for _ in range(r.randrange(0, 6))] + [(1, 1)]
+            cases.append('(case k%d tokens x%s (sched %s) (ewd %d))' % (n, doc.hex(), ' '.join('(%d %d)' % s for s in sc), r.randrange(2)))
+    return cases
+
+
 def run(ctx):
     b = lib.standard_build(ctx, theorems=False)   # no Coq theorem for this property yet: see MANIFEST level
     if not lib.require_builds(ctx, b):
@@ -53,6 +108,7 @@ def run(ctx):
     texts.append('forbid(principal,action,resource) when { ' + 'context.' + 'a' * 1500 + ' };')
     FILL.append('/* ' + '日' * 800 + ' */')
     cases = []
+    docs = []
     meta = {}
     n = 0
     ndocs = 40 if quick else 600
@@ -61,6 +117,8 @@ def run(ctx):
         pols = [r.choice(texts) for _ in range(k)]
         pad = r.choice([None, 1024 - r.randrange(0, 12), 2048 - r.randrange(0, 12), 1024 + r.randrange(0, 5), 3072 - r.randrange(0, 8)])
         doc, pos = build_doc(r, pols, pad)
+        if d % 3 == 0:
+            docs.append(doc)
         bad_kind = None
         if d % 10 == 7:
             # a malformed document: whole and streaming must report the same error
@@ -127,6 +185,12 @@ def run(ctx):
             bad += 1
             if bad <= 6:
                 ctx.violation(msg, dict(kind='case', case=c[:30000], go=res[:3000]))
+    tcases = token_cases(ctx, docs)
+    go_t, mo_t, mism = lib.differential(ctx, tcases, 'tokens', shards=16, nontrivial=lambda c, g: len(c) > 2300,
+                                        describe='tokenizer (type, offset, line, column, text of every token, or error): Go and the Coq scanner model disagree')
+    ctx.oblige('correspondence: internal/parser tokenizer = Impl.Tokenizer over Impl.Scanner (bufLen 1024) = Lang.Cursor spec tokenizer, on %d (document, read schedule) pairs'
+               % len(tcases), 'correspondence', not mism)
+    ctx.extra['token_results'] = {k: sum(1 for v in go_t.values() if v.startswith(k)) for k in ('(ok', '(error')}
     ctx.oblige('direct oracle: streaming = whole slice, reader failure => error, positions exact (%d runs)' % len(cases), 'oracle', bad == 0)
     for c in cases[:2]:
         ctx.sample(dict(case=c[:200] + ' ... ' + c[-80:], go=(go.get(lib.case_id(c)) or '')[:200]))
